@@ -31,12 +31,8 @@ type VNode struct {
 	TagForm  string // "", nonMinimalTag, highTagLeading80, wrongTag
 	Trailing []byte // extra octets after the children (trailingInSequence)
 	Dropped  bool   // requiredFieldMissing
+	Ignored  bool   // on the wire, but no decoder takes it for this member (an OPTIONAL member with another class)
 }
-
-const (
-	classUniversal = 0
-	classContext   = 2
-)
 
 var universalTag = map[string]int{
 	"int": 2, "int32": 2, "int64": 2, "bigint": 2, "enum": 10, "bool": 1, "bitstring": 3, "oid": 6,
@@ -81,8 +77,7 @@ func concat(parts [][]byte) []byte {
 }
 
 func isPlainStr(n *Node) bool {
-	return n.K == "str" && !n.has("utf8") && !n.has("ia5") && !n.has("numeric") && !n.has("printable") &&
-		!n.has("tag1") && !n.has("tag1000")
+	return n.K == "str" && !n.has("utf8") && !n.has("ia5") && !n.has("numeric") && !n.has("printable") && !n.tagged()
 }
 
 // intValue picks the integer of a leaf (never zero: a zero optional field is omitted by Marshal).
@@ -317,7 +312,7 @@ func leaf(n *Node, v, ctr int, tf *TimeForm) *VNode {
 		panic("leaf kind " + n.K)
 	}
 	if t, ok := n.tagNum(); ok {
-		vn.Class, vn.Tag = classContext, t
+		vn.Class, vn.Tag = n.readClass(), t
 	}
 	return vn
 }
@@ -338,7 +333,7 @@ func build(n *Node, v int, ctr *int, tf *TimeForm) *VNode {
 		vn.Tag = 17
 	}
 	if t, ok := n.tagNum(); ok {
-		vn.Class, vn.Tag = classContext, t
+		vn.Class, vn.Tag = n.readClass(), t
 	}
 	switch n.K {
 	case "struct":
@@ -409,6 +404,26 @@ func applyDefect(root *VNode, defect string, path []int) {
 		vn.LenForm = defect
 	case "nonMinimalTag", "highTagLeading80", "wrongTag":
 		vn.TagForm = defect
+	case "classUniversal", "classContext", "classApplication", "classPrivate":
+		vn.Class = map[string]int{"classUniversal": classUniversal, "classContext": classContext,
+			"classApplication": classApplication, "classPrivate": classPrivate}[defect]
+		if vn.Class == vn.N.readClass() {
+			panic("the class defect is the expected class")
+		}
+		if vn.N.has("optional") {
+			// taken as absent; the element is offered to the members after it, which (the specification generates
+			// the case only then) cannot take it either: they are absent or - a required one - reject
+			vn.Ignored = true
+			if parent != nil {
+				after := false
+				for _, k := range parent.Kids {
+					if after {
+						k.Ignored = true
+					}
+					after = after || k == vn
+				}
+			}
+		}
 	case "requiredFieldMissing":
 		vn.Dropped = true
 		_ = parent
@@ -534,7 +549,7 @@ func zeroCanon(n *Node, top bool) string {
 	case "seqof", "setof":
 		return cList(nil)
 	case "explicit":
-		return zeroCanon(n.Kids[0], false)
+		return zeroCanon(n.Kids[0], top && n.has("default7"))
 	case "int", "int32", "int64", "enum":
 		if n.has("default7") && top {
 			return cInt(7)
@@ -566,7 +581,7 @@ func zeroCanon(n *Node, top bool) string {
 func canonExp(vn *VNode) string { return canonExpIn(vn, nil) }
 
 func canonExpIn(vn, parent *VNode) string {
-	if !vn.Present {
+	if !vn.Present || vn.Ignored {
 		return zeroCanon(vn.N, true)
 	}
 	switch vn.N.K {
